@@ -9,6 +9,7 @@ require (
 	github.com/dolthub/vitess v0.0.0-20260819175407-19559ab533b7
 	github.com/golang/snappy v0.0.4
 	github.com/sirupsen/logrus v1.8.3
+	google.golang.org/grpc v1.82.1
 )
 
 require (
@@ -135,7 +136,6 @@ require (
 	google.golang.org/genproto v0.0.0-20250505200425-f936aa4a68b2 // indirect
 	google.golang.org/genproto/googleapis/api v0.0.0-20260414002931-afd174a4e478 // indirect
 	google.golang.org/genproto/googleapis/rpc v0.0.0-20260414002931-afd174a4e478 // indirect
-	google.golang.org/grpc v1.82.1 // indirect
 	google.golang.org/protobuf v1.36.11 // indirect
 	gopkg.in/go-jose/go-jose.v2 v2.6.3 // indirect
 	gopkg.in/src-d/go-errors.v1 v1.0.0 // indirect
